@@ -272,6 +272,19 @@ theorem smuggled_attestation_rejected (k : B) (m : Mac B) (dms : List (Mac B)) (
   · have := this.2 ha; rw [hp] at this; cases this
   · rw [this.1] at hw; cases hw
 
+/-- a verifier that trusts no third party at all obtains no attestation from a permission (non-proof)
+token, whatever discharges are presented: the result of an accepted verification holds none -/
+theorem untrusting_verifier_obtains_nothing (k : B) (m : Mac B) (dms : List (Mac B))
+    (cs : List (Cav B)) (hp : m.nonce.proof = false)
+    (hv : verify k m dms (fun _ => []) = .ok cs) : obtainable cs = [] := by
+  cases ho : obtainable cs with
+  | nil => rfl
+  | cons a rest =>
+    have ha : a ∈ obtainable cs := by rw [ho]; simp
+    obtain ⟨_, h | ⟨p, _, d, _, _, _, ht⟩⟩ := attestation_provenance k m dms (fun _ => []) cs hv a ha
+    · rw [hp] at h; cases h.1
+    · simp [no_keys_no_trust] at ht
+
 /-! ### non-vacuity (symbolic instance; the end-to-end witness `exDA` is in Props/Symbolic.lean) -/
 
 section examples
@@ -291,6 +304,7 @@ example := attestation_source (atom 0) q1 [qd] qtrust _ (by rfl) (.flyioUserID 7
 example := attestation_provenance (atom 0) q1 [qd] qtrust _ (by rfl) (.flyioUserID 7) (by decide)
 -- untrusting verifier: the identity is not obtainable
 example : obtainable (match verify (atom 0) q1 [qd] (fun _ => []) with | .ok cs => cs | .error _ => []) = [] := by decide
+example := untrusting_verifier_obtains_nothing (atom 0) q1 [qd] _ rfl (by rfl)
 -- `trust_needs_matching_ticket`, both halves
 example : trustOf [atom 5] qtk (atom 11) = some true := by rfl
 example := (trust_needs_matching_ticket [atom 5] qtk (atom 11)).1 (by rfl)
@@ -322,3 +336,4 @@ end Macaroon.Props.C07
 #print axioms Macaroon.Props.C07.nonproof_stays_attestation_free
 #print axioms Macaroon.Props.C07.isAttestation_by_type
 #print axioms Macaroon.Props.C07.registry_attestation_flags
+#print axioms Macaroon.Props.C07.untrusting_verifier_obtains_nothing
